@@ -162,7 +162,11 @@ func (w *world) build() error {
 	w.cseen = map[string]int{}
 	for _, n := range []string{"t1", "t2", "t3"} {
 		n := n
-		t := &actors.ScriptedTarget{Label: n, Partial: s.T.Choose(st, 2) == 1, Prop: w.a.Prop}
+		tprop := w.a.Prop
+		if tprop == "C11" {
+			tprop = "" // typestate findings belong to C03
+		}
+		t := &actors.ScriptedTarget{Label: n, Partial: s.T.Choose(st, 2) == 1, Prop: tprop}
 		t.PlanFor = func(tx *actors.TxRecord) *actors.StagePlan {
 			pl := w.plans[n]
 			if tx.N-1 < len(pl) {
@@ -641,6 +645,11 @@ func Run(s *simrt.Sim, a *harness.Args, r *harness.Result) {
 		if len(s.Violations()) == 0 {
 			w.oracleC16()
 		}
+	} else if a.Prop == "C11" {
+		// the endpoint part of C11: only the permits are judged here
+		if len(s.Violations()) == 0 && w.limitN > 0 {
+			w.oracleLimits()
+		}
 	} else {
 		if len(s.Violations()) == 0 {
 			w.oracleC03()
@@ -1007,7 +1016,11 @@ func (w *world) oracleLimits() {
 	})
 	s.Run(5*time.Minute, func() bool { return done })
 	if done && bad != "" {
-		s.Violate("C03/permit-leak/"+w.limScope, "after all sessions ended %s", bad)
+		key := "C03/permit-leak/" + w.limScope
+		if w.a.Prop == "C11" {
+			key = "C11/permit-leak/endpoint/" + w.limScope
+		}
+		s.Violate(key, "after all sessions ended %s", bad)
 	}
 }
 
